@@ -1530,4 +1530,302 @@ theorem agrees_with_rfc (idna : Str → Option Str) (s : Str) (u : Url) (r : Ref
           | some pr => simp
 
 
+/-! ## the encoder acts segment-wise on a path -/
+
+theorem hex2_append_slash (x y : Str) : hex2 (x ++ 47 :: y) = hex2 x := by
+  match x with
+  | [] => cases y <;> simp [hex2, isHexC, isDigitC]
+  | [a] => simp [hex2, isHexC, isDigitC]
+  | a :: b :: t => simp [hex2]
+
+theorem tokAux_append_slash (n : Nat) : ∀ (x y : Str), x.length ≤ n →
+    tokAux 0 (x ++ 47 :: y) = tokAux 0 x ++ Tok.chr 47 :: tokAux 0 y := by
+  induction n with
+  | zero =>
+    intro x y hx
+    have : x = [] := by cases x with | nil => rfl | cons _ _ => simp at hx
+    subst this
+    simp [tokAux]
+  | succ n ih =>
+    intro x y hx
+    cases x with
+    | nil => simp [tokAux]
+    | cons c t =>
+      simp only [List.length_cons, Nat.add_le_add_iff_right] at hx
+      simp only [List.cons_append, tokAux]
+      by_cases hc : c = 37
+      · simp only [hc, if_true, hex2_append_slash]
+        cases hh : hex2 t with
+        | none => simp only; rw [ih t y hx]; simp
+        | some ab =>
+          obtain ⟨a, b⟩ := ab
+          obtain ⟨t', rfl, -, -⟩ := hex2_some hh
+          simp only [List.cons_append, tokAux]
+          have : t'.length ≤ n := by simp only [List.length_cons] at hx; omega
+          rw [ih t' y this]
+      · simp only [hc, if_false]
+        rw [ih t y hx]; simp
+
+theorem tokenize_append_slash (x y : Str) :
+    tokenize (x ++ 47 :: y) = tokenize x ++ Tok.chr 47 :: tokenize y :=
+  tokAux_append_slash x.length x y (Nat.le_refl _)
+
+/-- what a segment becomes under the encoder (the `%`-flag `pe` is that of the whole component) -/
+def encSeg (A : List Nat) (pe : Bool) (x : Str) : Str := (tokenize x).flatMap (encTok A pe)
+
+theorem encTok_slash (A : List Nat) (pe : Bool) (h47 : mem A 47 = true) : encTok A pe (.chr 47) = [47] := by
+  simp [encTok, Tok.upper, utf8, utf8cp, encByte, h47]
+
+theorem enc_join (A : List Nat) (pe : Bool) (h47 : mem A 47 = true) (L : List Str) :
+    (tokenize (joinWith [47] L)).flatMap (encTok A pe) = joinWith [47] (L.map (encSeg A pe)) := by
+  induction L with
+  | nil => rfl
+  | cons x r ih =>
+    cases r with
+    | nil => simp [joinWith, encSeg]
+    | cons y t =>
+      simp only [joinWith, List.append_assoc, List.singleton_append, List.map_cons] at ih ⊢
+      rw [tokenize_append_slash, List.flatMap_append, List.flatMap_cons, encTok_slash A pe h47, ih]
+      simp [encSeg]
+
+theorem hexDigitU_ne47 (n : Nat) : hexDigitU n ≠ 47 := by
+  unfold hexDigitU; split <;> omega
+
+theorem hexDigitU_ne46 (n : Nat) : hexDigitU n ≠ 46 := by
+  unfold hexDigitU; split <;> omega
+
+theorem encByte_no47 (A : List Nat) (pe : Bool) (b : Nat) (hb : b ≠ 47) : 47 ∉ encByte A pe b := by
+  unfold encByte
+  split
+  · simpa using Ne.symm hb
+  · simp [pctByte, hexDigitU_ne47, Ne.symm (hexDigitU_ne47 _)]
+
+theorem utf8cp_ne47 (c : Nat) (hc : c ≠ 47) : ∀ b ∈ utf8cp c, b ≠ 47 := by
+  intro b hb
+  unfold utf8cp at hb
+  split at hb
+  · simp at hb; omega
+  · split at hb
+    · simp at hb; omega
+    · split at hb
+      · simp at hb; omega
+      · simp at hb; omega
+
+theorem hexC_ne47 {c : Nat} (h : isHexC c = true) : upperC c ≠ 47 := by
+  have := isHexUp_upperC_of_hex h
+  simp only [isHexUp, isDigitC, Bool.or_eq_true, Bool.and_eq_true, decide_eq_true_eq] at this
+  omega
+
+theorem flatMap_no47 (l : List Nat) (f : Nat → Str) (h : ∀ b ∈ l, 47 ∉ f b) : 47 ∉ l.flatMap f := by
+  simp only [List.mem_flatMap, not_exists, not_and]
+  intro b hb; exact h b hb
+
+theorem encTok_no47 (A : List Nat) (pe : Bool) (t : Tok) (hok : t.ok = true) (ht : t ≠ .chr 47) :
+    47 ∉ encTok A pe t := by
+  unfold encTok
+  apply flatMap_no47
+  intro b hb
+  apply encByte_no47
+  cases t with
+  | chr c =>
+    have hc : c ≠ 47 := fun e => ht (by rw [e])
+    simp only [Tok.upper, utf8, List.flatMap_cons, List.flatMap_nil, List.append_nil] at hb
+    exact utf8cp_ne47 c hc b hb
+  | esc x y =>
+    simp only [Tok.ok, Bool.and_eq_true] at hok
+    have hx := upperC_lt (hexC_lt hok.1).1
+    have hy := upperC_lt (hexC_lt hok.2).1
+    have e : utf8 [37, upperC x, upperC y] = [37, upperC x, upperC y] :=
+      utf8_ascii (by intro c hc; simp at hc; rcases hc with rfl | rfl | rfl <;> omega)
+    simp only [Tok.upper, e, List.mem_cons, List.not_mem_nil, or_false] at hb
+    rcases hb with rfl | rfl | rfl
+    · decide
+    · exact hexC_ne47 hok.1
+    · exact hexC_ne47 hok.2
+
+theorem tokens_no47 (x : Str) (hx : 47 ∉ x) : ∀ t ∈ tokenize x, t ≠ .chr 47 := by
+  intro t ht e
+  subst e
+  apply hx
+  rw [← render_tokenize x]
+  simp only [renderToks, List.mem_flatMap]
+  exact ⟨_, ht, by simp [Tok.text]⟩
+
+theorem encSeg_no47 (A : List Nat) (pe : Bool) (x : Str) (hx : 47 ∉ x) : 47 ∉ encSeg A pe x := by
+  unfold encSeg
+  simp only [List.mem_flatMap, not_exists, not_and]
+  intro t ht
+  exact encTok_no47 A pe t (tokenize_ok x t ht) (tokens_no47 x hx t ht)
+
+theorem encByte_head (A : List Nat) (pe : Bool) (b : Nat) :
+    ∃ h r, encByte A pe b = h :: r ∧ (h = 46 → b = 46 ∧ r = []) := by
+  unfold encByte
+  split
+  · exact ⟨b, [], rfl, fun e => ⟨e, rfl⟩⟩
+  · exact ⟨37, _, rfl, fun e => by omega⟩
+
+theorem encByte_high (A : List Nat) (pe : Bool) (b : Nat) (hb : 128 ≤ b) :
+    encByte A pe b = pctByte b := by
+  unfold encByte
+  have h1 : (b == 37) = false := by simp; omega
+  have h2 : decide (b < 128) = false := by simp; omega
+  simp [h1, h2]
+
+/-- every token produces at least one character, and a leading `.` only comes from the token `.` -/
+theorem encTok_head (A : List Nat) (pe : Bool) (t : Tok) (hok : t.ok = true) :
+    ∃ h r, encTok A pe t = h :: r ∧ (h = 46 → t = .chr 46 ∧ r = []) := by
+  cases t with
+  | esc x y =>
+    simp only [Tok.ok, Bool.and_eq_true] at hok
+    have hx := upperC_lt (hexC_lt hok.1).1
+    have hy := upperC_lt (hexC_lt hok.2).1
+    have e : utf8 [37, upperC x, upperC y] = [37, upperC x, upperC y] :=
+      utf8_ascii (by intro c hc; simp at hc; rcases hc with rfl | rfl | rfl <;> omega)
+    simp only [encTok, Tok.upper, e, List.flatMap_cons]
+    obtain ⟨h, r, hb, hh⟩ := encByte_head A pe 37
+    rw [hb]
+    exact ⟨h, _, rfl, fun e => by have := (hh e).1; omega⟩
+  | chr c =>
+    simp only [encTok, Tok.upper, utf8, List.flatMap_cons, List.flatMap_nil, List.append_nil]
+    by_cases hc : c < 128
+    · simp only [utf8cp_ascii hc, List.flatMap_cons, List.flatMap_nil, List.append_nil]
+      obtain ⟨h, r, hb, hh⟩ := encByte_head A pe c
+      exact ⟨h, r, hb, fun e => by obtain ⟨e1, e2⟩ := hh e; exact ⟨by rw [e1], e2⟩⟩
+    · have hc' : 128 ≤ c := by omega
+      unfold utf8cp
+      simp only [hc, if_false]
+      split
+      · simp only [List.flatMap_cons]
+        rw [encByte_high A pe _ (by omega)]
+        exact ⟨37, _, rfl, fun e => by omega⟩
+      · split
+        · simp only [List.flatMap_cons]
+          rw [encByte_high A pe _ (by omega)]
+          exact ⟨37, _, rfl, fun e => by omega⟩
+        · simp only [List.flatMap_cons]
+          rw [encByte_high A pe _ (by omega)]
+          exact ⟨37, _, rfl, fun e => by omega⟩
+
+theorem encToks_nil (A : List Nat) (pe : Bool) (ts : List Tok) (hok : ∀ t ∈ ts, t.ok = true)
+    (h : ts.flatMap (encTok A pe) = []) : ts = [] := by
+  cases ts with
+  | nil => rfl
+  | cons t r =>
+    obtain ⟨hd, tl, e, -⟩ := encTok_head A pe t (hok t (List.mem_cons_self ..))
+    simp [e] at h
+
+theorem encToks_dot (A : List Nat) (pe : Bool) (ts : List Tok) (hok : ∀ t ∈ ts, t.ok = true)
+    (h : ts.flatMap (encTok A pe) = [46]) : ts = [.chr 46] := by
+  cases ts with
+  | nil => simp at h
+  | cons t r =>
+    obtain ⟨hd, tl, e, hh⟩ := encTok_head A pe t (hok t (List.mem_cons_self ..))
+    simp only [List.flatMap_cons, e, List.cons_append, List.cons.injEq] at h
+    obtain ⟨rfl, rfl⟩ := hh h.1
+    simp only [List.nil_append] at h
+    rw [encToks_nil A pe r (fun x hx => hok x (List.mem_cons_of_mem _ hx)) h.2]
+
+theorem encToks_dotdot (A : List Nat) (pe : Bool) (ts : List Tok) (hok : ∀ t ∈ ts, t.ok = true)
+    (h : ts.flatMap (encTok A pe) = [46, 46]) : ts = [.chr 46, .chr 46] := by
+  cases ts with
+  | nil => simp at h
+  | cons t r =>
+    obtain ⟨hd, tl, e, hh⟩ := encTok_head A pe t (hok t (List.mem_cons_self ..))
+    simp only [List.flatMap_cons, e, List.cons_append, List.cons.injEq] at h
+    obtain ⟨rfl, rfl⟩ := hh h.1
+    simp only [List.nil_append] at h
+    rw [encToks_dot A pe r (fun x hx => hok x (List.mem_cons_of_mem _ hx)) h.2]
+
+/-- encoding never turns a segment into `.` or `..`, nor puts a `/` into it -/
+theorem encSeg_clean (A : List Nat) (pe : Bool) (x : Str) (hx : CleanSeg x) : CleanSeg (encSeg A pe x) := by
+  refine ⟨encSeg_no47 A pe x hx.1, ?_, ?_⟩
+  · intro e
+    have := encToks_dot A pe (tokenize x) (tokenize_ok x) e
+    apply hx.2.1
+    rw [← render_tokenize x, this]; rfl
+  · intro e
+    have := encToks_dotdot A pe (tokenize x) (tokenize_ok x) e
+    apply hx.2.2
+    rw [← render_tokenize x, this]; rfl
+
+/-- the encoder maps a `/`-joined list of clean segments to a `/`-joined list of clean segments -/
+theorem encode_join_clean (A : List Nat) (h47 : mem A 47 = true) (L : List Str) (hL : ∀ x ∈ L, CleanSeg x) :
+    ∃ L', (∀ x ∈ L', CleanSeg x) ∧ L'.length = L.length ∧
+      encodeInvalidChars A (joinWith [47] L) = joinWith [47] L' := by
+  rw [encodeInvalidChars_eq]
+  generalize (countEscapes (joinWith [47] L) == (utf8 (upperEscapes (joinWith [47] L))).count 37) = pe
+  refine ⟨L.map (encSeg A pe), ?_, by simp, enc_join A pe h47 L⟩
+  intro x hx
+  simp only [List.mem_map] at hx
+  obtain ⟨y, hy, rfl⟩ := hx
+  exact encSeg_clean A pe y (hL y hy)
+
+/-- the path normalisation of `parse_url` yields a `/`-joined list of clean segments -/
+theorem normPath_clean (p : Str) : ∃ L, (∀ x ∈ L, CleanSeg x) ∧ normPath true p = joinWith [47] L := by
+  unfold normPath
+  split
+  · rw [removeDotSegments_eq]
+    obtain ⟨L', h1, -, h3⟩ := encode_join_clean Gen.pathChars (by decide) (dotOutput p) (dotOutput_clean p)
+    exact ⟨L', h1, h3⟩
+  · rename_i hne
+    have : p = [] := by simpa using hne
+    exact ⟨[], by simp, by rw [this]; rfl⟩
+
+/-- a text that is a `/`-joined list of clean segments -/
+def CleanJoin (p : Str) : Prop := ∃ L, (∀ x ∈ L, CleanSeg x) ∧ p = joinWith [47] L
+
+theorem cleanJoin_no_dots {p : Str} (h : CleanJoin p) :
+    ∀ seg ∈ splitOn1 47 p, seg ≠ dot ∧ seg ≠ dotdot := by
+  obtain ⟨L, hL, rfl⟩ := h
+  by_cases hne : L = []
+  · subst hne; simp [joinWith, splitOn1, dot, dotdot]
+  · rw [splitOn1_join 47 L hne (fun x hx => (hL x hx).1)]
+    intro seg hs; exact (hL seg hs).2
+
+theorem cleanJoin_fixed {p : Str} (h : CleanJoin p) : removeDotSegments p = p := by
+  obtain ⟨L, hL, rfl⟩ := h
+  exact removeDotSegments_fixed L hL
+
+theorem cleanJoin_slash {p : Str} (h : CleanJoin p) (hne : p ≠ []) : CleanJoin (47 :: p) := by
+  obtain ⟨L, hL, rfl⟩ := h
+  cases L with
+  | nil => exact absurd rfl hne
+  | cons y t =>
+    refine ⟨[] :: y :: t, ?_, by simp [joinWith]⟩
+    intro x hx
+    simp only [List.mem_cons] at hx
+    rcases hx with rfl | hx
+    · exact cleanSeg_nil
+    · exact hL x (by simpa using hx)
+
+/-- the path `Url.__new__` stores: a leading `/` is added to a non-empty relative path -/
+def finalPath (pa : Str) : Str := if !pa.isEmpty && pa.head? != some 47 then 47 :: pa else pa
+
+theorem finalPath_clean (p0 : Str) : CleanJoin (finalPath (normPath true p0)) := by
+  obtain ⟨L, hL, e⟩ := normPath_clean p0
+  unfold finalPath
+  split
+  · rename_i hc
+    apply cleanJoin_slash ⟨L, hL, e⟩
+    intro e0; rw [e0] at hc; simp at hc
+  · exact ⟨L, hL, e⟩
+
+
+theorem mkUrl_path {sc au ho : Option Str} {po : Option Nat} {pa : Str} {c : Bool} {q f : Option Str} {x : Str}
+    (h : (mkUrl sc au ho po (if pa.isEmpty then (if c then some [] else none) else some pa) q f).path = some x) :
+    x = finalPath pa := by
+  simp only [mkUrl] at h
+  by_cases hp : pa.isEmpty = true
+  · have : pa = [] := by simpa using hp
+    subst this
+    cases c <;> simp [finalPath] at h ⊢
+    exact h
+  · have hp' : pa.isEmpty = false := by simpa using hp
+    simp only [hp', Bool.false_eq_true, if_false] at h
+    unfold finalPath
+    rw [hp']
+    split at h <;> rename_i hc
+    · simp only [Option.some.injEq] at h; rw [if_pos hc]; exact h.symm
+    · simp only [Option.some.injEq] at h; rw [if_neg hc]; exact h.symm
+
 end U3.Url
